@@ -178,6 +178,9 @@ def tokens(s):
 
 def novel_construct(saved, text, msg):
     """identifier(s) the writer introduced (not present in the original text) on the line the loader complains about"""
+    m = re.search(r"Symbol '(\w+)' not found", msg) or re.search(r"Previous tokens: \[Token\('\w+', '(\w+)'\)\]", msg)
+    if m and m.group(1) not in tokens(text):
+        return m.group(1)  # the loader names the identifier it does not know
     lines = [ln.split("#")[0] for ln in saved.splitlines()]
     known = set(mg.CALLS) | {"ScalarParam", "unit", "description", "pi", "t", "time"}
     novel = lambda ls: sorted(t for t in tokens("\n".join(ls)) - tokens(text) - known)  # noqa: E731
@@ -403,7 +406,7 @@ def roundtrip(text, points, res, shr, ode=None, what="model", upto=None):
                 o2 = gotranx.load_ode(path)
         except Exception as e:  # noqa: BLE001
             msg = cm.short(e)
-            con = novel_construct(saved, text, msg) if cm.exc_name(e) in ("MissingSymbolError", "UnexpectedToken", "UnexpectedCharacters", "UnexpectedInput", "UnexpectedEOF") else None
+            con = novel_construct(saved, text, str(e)) if cm.exc_name(e) in ("MissingSymbolError", "UnexpectedToken", "UnexpectedCharacters", "UnexpectedInput", "UnexpectedEOF") else None
             add(f"C11:reload-raises:{cm.exc_name(e)}" + (f":{con}" if con else ""), f"the file written by ode.save is rejected by load_ode ({what})", "a loadable file", cm.exc_site(e), msg,
                 shrink=True, base=f"C11:reload-raises:{cm.exc_name(e)}", keep=True)
             return
